@@ -49,5 +49,7 @@ SEEDED = [
     ("C20-11", "C20-WRAP"),
     ("C20-13", "C20-LEN"),
     ("C20-12", "C20-MIX"),
+    ("C20-14", "C20-LEN"),
+    ("C20-15", "C20-MIX"),
 ]
 MUTANTS = list(MUTANTS) + [_P("seed-" + sid, _os.path.join(_SEEDS, sid, "patch.diff"), rule) for sid, rule in SEEDED if _os.path.exists(_os.path.join(_SEEDS, sid, "patch.diff"))]
